@@ -634,7 +634,7 @@ struct Printer {
     seen: std::collections::HashSet<u64>,
     max_terms: usize,
     enabled: bool,
-    per_kind: [usize; 4],
+    per_kind: [usize; 5],
 }
 
 impl Printer {
@@ -667,8 +667,41 @@ impl Printer {
         let pe = trace_vec(&rec.input.prev).map(|t| executed_canons(&t)).unwrap_or_default();
         let ce = trace_vec(&rec.input.cur).map(|t| executed_canons(&t)).unwrap_or_default();
         let oe = trace_vec(&rec.out.data).map(|t| executed_canons(&t)).unwrap_or_default();
-        let kind = if cross { 3 } else if oe.iter().any(|c| !pe.contains(c) && !ce.contains(c)) { 0 } else if !pe.is_empty() || !ce.is_empty() { 1 } else { 2 };
-        let quota = match kind { 0 => (self.max_terms + 1) / 2, 1 => std::cmp::max(self.max_terms / 2, 1), 2 => if self.max_terms >= 3 { 1 } else { 0 }, _ => self.max_terms / 2 + 1 };
+        // a run that re-uses a result while its own stream holds something else (more values arrived, another order)
+        let differs = || -> bool {
+            // ... and hands the canon value to a service in this very run (the value is then observable in the request)
+            if !rec.out.requests.as_ref().map(|r| r.values().any(|q| q.service == "obs" || q.service == "obs0")).unwrap_or(false) {
+                return false;
+            }
+            let d = match decode_data(&rec.out.data) { Ok(d) => d, Err(_) => return false };
+            let mut stream_states = 0usize;
+            for s in d.data.trace.iter() {
+                match s {
+                    ExecutedState::Call(CallResult::Executed(ValueRef::Stream { .. })) | ExecutedState::Ap(_) => stream_states += 1,
+                    ExecutedState::Canon(CanonResult::Executed(cid)) => {
+                        let id = cid.get_inner().to_string();
+                        if pe.contains(&id) || ce.contains(&id) {
+                            if let Some((_, vals)) = canon_content(&d.data.cid_info, &id) {
+                                if vals.len() != stream_states {
+                                    return true;
+                                }
+                            }
+                        }
+                    }
+                    _ => {}
+                }
+            }
+            false
+        };
+        let kind = if cross { 3 } else if oe.iter().any(|c| !pe.contains(c) && !ce.contains(c)) { 0 }
+                   else if !pe.is_empty() || !ce.is_empty() { if differs() { 4 } else { 1 } } else { 2 };
+        let quota = match kind {
+            0 => (self.max_terms + 1) / 2,
+            4 => std::cmp::max(self.max_terms / 2, 1),
+            1 => self.max_terms / 4,
+            2 => if self.max_terms >= 3 { 1 } else { 0 },
+            _ => self.max_terms / 2 + 1,
+        };
         if self.per_kind[kind] >= quota {
             return;
         }
@@ -679,7 +712,7 @@ impl Printer {
             self.per_kind[kind] += 1;
             self.terms.push(t);
             self.term_script.push(which_script);
-            self.classes.push(format!("{}/{}", ["creates", "reuses", "other", "cross"][kind], cls));
+            self.classes.push(format!("{}/{}", ["creates", "reuses", "other", "cross", "reuses with another local stream"][kind], cls));
             self.infos.push(info);
         }
     }
@@ -709,7 +742,7 @@ fn run_case(case: &J) -> J {
         None => None,
     };
     let mut pr = Printer { dict: Dict::default(), terms: vec![], term_script: vec![], classes: vec![], infos: vec![], seen: Default::default(),
-                           max_terms: case["max_terms"].as_u64().unwrap_or(40) as usize, enabled: case["model"].as_bool().unwrap_or(true), per_kind: [0; 4] };
+                           max_terms: case["max_terms"].as_u64().unwrap_or(40) as usize, enabled: case["model"].as_bool().unwrap_or(true), per_kind: [0; 5] };
     let mut st = Stats::default();
     let mut failures: Vec<J> = vec![];
     let mut runs = 0usize;
